@@ -22,7 +22,7 @@ def sym_name(ex, tag, aac):
     return low + mid * 2 ** 49 + (2 ** 63 if aac else 0)
 
 
-def h_claim(ex, cfg, reent=False, lat_mode='per_rx'):
+def h_claim(ex, cfg, reent=False, lat_mode='per_rx', dll='j1939-21'):
     """cfg: list of [aac, preferred address, start key, claim delay key]
     lat_mode 'per_rx': fresh symbolic latency per frame and receiver; 'per_frame': one per frame (all receivers
     see the frame at the same instant, as on a physical CAN bus)"""
@@ -37,7 +37,7 @@ def h_claim(ex, cfg, reent=False, lat_mode='per_rx'):
     w = W.World(ex, mode='timed', eps=Fraction(1, 10000), latency=latency, reentrant='all' if reent else None)
     cas = []
     for i, (aac, addr, start, delay) in enumerate(cfg):
-        n = w.add_node('N%d' % i)
+        n = w.add_node('N%d' % i, dll=dll)
         v = sym_name(ex, 'name%d' % i, aac)
         name = j1939.Name(value=v)
         ca = j1939.ControllerApplication(name, addr)
@@ -140,6 +140,10 @@ def jobs(tier):
     for cfg in _configs(tier):
         if cfg[1][3] == '0' and cfg[1][2] in ('0', '3ms', '249.5ms', '260ms'):
             out.append(Job('C04', 'c04:h_claim', {'cfg': cfg, 'reent': True}, W=96, wall=300, max_paths=5000, validate=1))
+    # the same contest on J1939-22 stacks (claim frames are plain frames there too; the dispatch code is separate)
+    for cfg in _configs(tier):
+        if cfg[1][3] == '0' and (tier != 'quick' or cfg[1][2] in ('0', '3ms', '240ms', '260ms')) and (tier != 'quick' or cfg[0][1] in (128, 10, 0)):
+            out.append(Job('C04', 'c04:h_claim', {'cfg': cfg, 'dll': 'j1939-22'}, W=96, wall=300, max_paths=5000, validate=1))
     for cfg in _configs3(tier):
         simultaneous = len(set(c[2] for c in cfg)) < 3
         # simultaneously starting CAs on one address: the path count explodes with the number of cascades; explored
@@ -151,7 +155,7 @@ def jobs(tier):
 
 def meta(tier):
     return {
-        'bounds': ['2 and 3 CAs on separate stacks; 64-bit NAMEs symbolic (valid: reserved bit 0), pairwise distinct; arbitrary-address-capable flag case-split',
+        'bounds': ['2 and 3 CAs on separate stacks (J1939-21; two CAs also on J1939-22 stacks); 64-bit NAMEs symbolic (valid: reserved bit 0), pairwise distinct; arbitrary-address-capable flag case-split',
                    'preferred addresses equal / adjacent / distinct in the immediate and veto ranges (see _configs; 3 CAs: all on one address, two on one and the third next to it or elsewhere); start offsets and claim delays from the grid ' + str(sorted(GRID)),
                    'delivery latency of every frame to every receiver: fresh symbolic real in [10 us, 5 ms] (FIFO per receiver kept); scheduling latency 0.1 ms',
                    'quiescence = last start + claim delay + 5 s', 'latency exactly 0 = all frames delivered re-entrantly inside the send call (2 CAs)'],
